@@ -53,6 +53,29 @@ theorem min_abs_unique (w f n a : ℚ) (hw : 0 < w) (ha : minAbsFeasible f n a =
 
 example : minAbsFeasible (-6) 2 3 = true ∧ minAbsFeasible (-6) 2 (5/2) = false := by decide +kernel
 
+/-- **`minAbs_relaxation_scaled`**: the bound retained for the converted goal (function = auxiliary
+    variable `a = |f|/n`, nominal 1, relaxation `r/n`) after its priority, `a ≤ (a* + r/n)/1 + cr`, is
+    the original goal's bound in physical units: `|f| ≤ |f*| + r + n·cr`. -/
+theorem minAbs_relaxation_scaled (f fstar r n cr : ℚ) (hn : 0 < n) :
+    |f| / n ≤ retainedUpper (|fstar| / n) (convertedRelaxation r n) 1 cr ↔ |f| ≤ |fstar| + r + n * cr := by
+  unfold retainedUpper convertedRelaxation
+  have e : (|fstar| / n + r / n) / 1 + cr = (|fstar| + r + n * cr) / n := by
+    field_simp
+  rw [e, div_le_div_iff_of_pos_right hn]
+
+/-- without the division (relaxation kept in physical units on the scaled variable) the retained bound
+    is `|f| ≤ |f*| + r·n + n·cr`: a different constraint whenever `n ≠ 1` and `r ≠ 0` -/
+theorem minAbs_relaxation_unscaled_differs (f fstar r n cr : ℚ) (hn : 0 < n) :
+    |f| / n ≤ retainedUpper (|fstar| / n) r 1 cr ↔ |f| ≤ |fstar| + r * n + n * cr := by
+  unfold retainedUpper
+  have e : (|fstar| / n + r) / 1 + cr = (|fstar| + r * n + n * cr) / n := by
+    field_simp
+  rw [e, div_le_div_iff_of_pos_right hn]
+
+example : retainedUpper (|(0:ℚ)| / 10) (convertedRelaxation (1/2) 10) 1 0 = 1/20
+    ∧ retainedUpper (|(0:ℚ)| / 10) (1/2) 1 0 = 1/2 := by
+  norm_num [retainedUpper, convertedRelaxation]
+
 /-! ## linearised order: `lin(x) = max_i (a_i x + b_i)` over the chords of `x^r` -/
 
 /-- the optimiser's variable (`lin ≥ a_i·eps + b_i` for all `i`, minimised) takes the value `linMax` -/
